@@ -285,6 +285,7 @@ func Main(id string) {
 		devSearch(r, cfgs, cov, *cfgFlag)
 	case "C15":
 		livenessPass(r, states, cov)
+		devLiveness(r, cfgs, cov, *cfgFlag)
 	case "C14":
 		evidencePass(r, states, cov)
 	}
@@ -300,7 +301,11 @@ func livenessPass(r *mc.Run, states []stateRec, cov map[string]any) {
 	const rLive = 8
 	type res struct{ silent, honest int }
 	out := make([]res, len(states))
-	done := mc.ParallelFor(len(states), 0, r.Expired, func(i int) {
+	stopTails := r.Expired
+	if PartFraction > 0 {
+		stopTails = func() bool { return r.ExpiredFrac(PartFraction + 0.2) }
+	}
+	done := mc.ParallelFor(len(states), 0, stopTails, func(i int) {
 		nc, _ := ConfigByName(states[i].cfg)
 		for mode := 0; mode < 2; mode++ {
 			_ = nc
@@ -394,8 +399,12 @@ func evidencePass(r *mc.Run, states []stateRec, cov map[string]any) {
 
 func replayMain(r *mc.Run, trace bool) {
 	var rp struct {
-		Config string `json:"config"`
-		Path   []int  `json:"path"`
+		Config    string `json:"config"`
+		Path      []int  `json:"path"`
+		Search    string `json:"search"`
+		Choices   []int  `json:"choices"`
+		DevRounds uint64 `json:"dev_rounds"`
+		Rounds    uint64 `json:"rounds"`
 	}
 	if err := r.LoadReplay(&rp); err != nil {
 		fmt.Println("cannot load replay:", err)
@@ -405,6 +414,49 @@ func replayMain(r *mc.Run, trace bool) {
 	if !ok {
 		fmt.Println("unknown config", rp.Config)
 		os.Exit(2)
+	}
+	if rp.Search == "message-level" || rp.Search == "message-level-liveness" {
+		outcomes := map[string]int{}
+		for i := 0; i < 5; i++ {
+			c := mc.NewChooser(rp.Choices)
+			var w *World
+			if rp.Search == "message-level" {
+				if rp.Rounds == 0 {
+					rp.Rounds = 2
+				}
+				w, _ = RunDev(nc.Cfg, c, rp.Rounds, trace && i == 0)
+			} else {
+				w, _ = RunDevOpt(nc.Cfg, c, DevOpt{MaxRounds: rp.DevRounds + 64, DevRounds: rp.DevRounds, TailRounds: tailRoundsFlag(), Trace: trace && i == 0})
+			}
+			if trace && i == 0 {
+				fmt.Println(strings.Join(w.Trace, "\n"))
+			}
+			var cs []string
+			honest := 0
+			for _, cm := range w.Commits {
+				cs = append(cs, fmt.Sprintf("n%d:%s", cm.Node, cm.BlockHash[:8]))
+				if w.Honest(cm.Node) {
+					honest++
+				}
+			}
+			sort.Strings(cs)
+			outcomes[strings.Join(cs, ",")]++
+			if i == 0 && r.ID == "C01" {
+				if v := DevViol(rp.Config, w, c, rp.Rounds); v != nil {
+					r.OnViol(*v)
+				}
+			}
+			if i == 0 && r.ID == "C15" && honest == 0 {
+				r.Violation("C15:no-commit-after-message-level-prefix", fmt.Sprintf("config %s: replayed schedule %v did not commit at any honest node", rp.Config, rp.Choices), nil)
+			}
+		}
+		fmt.Println("replay outcomes (5 runs):", outcomes)
+		if len(outcomes) != 1 {
+			fmt.Println("HARNESS ERROR: replay is not deterministic")
+			os.Exit(2)
+		}
+		r.Finish(map[string]any{"states": 1, "transitions": len(rp.Choices), "traces_validated_against_impl": 1})
+		return
 	}
 	outcomes := map[string]int{}
 	for i := 0; i < 5; i++ {
@@ -429,3 +481,7 @@ func replayMain(r *mc.Run, trace bool) {
 	}
 	r.Finish(map[string]any{"states": 1, "transitions": len(rp.Path), "traces_validated_against_impl": 1})
 }
+
+var tailFlag = flag.Int("tail", 8, "message-level liveness replay: synchronous rounds after GST")
+
+func tailRoundsFlag() uint64 { return uint64(*tailFlag) }
